@@ -203,6 +203,14 @@ add(Scenario("fwd-max1-AAB", _proxy_kw(PROXY, max_connections=1), [c("r1", A + "
 add(Scenario("tun-max1-AAB", _proxy_kw(PROXY, max_connections=1), [c("r1", SA + "/1"), c("r2", SA + "/2"), c("r3", "https://b.test/3")], world=world_proxy, enc={"proxy_origin": PROXY}, skip=PXSKIP))
 add(Scenario("socks-max1-AAB", _proxy_kw(SOCKS, max_connections=1), [c("r1", SA + "/1"), c("r2", A + "/2"), c("r3", SA + "/3")], world=world_socks, enc={"proxy_origin": "socks5://proxy.test:1080"}, skip=PXSKIP))
 
+# smaller proxy scenarios for the quick tier (two calls: establishment of every hop + one reuse / wait)
+add(Scenario("fwd-max1-AA", _proxy_kw(PROXY, max_connections=1), [c("r1", A + "/1"), c("r2", A + "/2")], world=world_proxy, enc={"proxy_origin": PROXY}, skip=PXSKIP))
+add(Scenario("socks-max1-AA", _proxy_kw(SOCKS, max_connections=1), [c("r1", SA + "/1"), c("r2", SA + "/2")], world=world_socks, enc={"proxy_origin": "socks5://proxy.test:1080"}, skip=PXSKIP))
+# SOCKS5 with HTTP/2 enabled and an https origin: the pool guesses that the connecting connection will
+# multiplex and assigns BOTH requests to it; the second one waits at the connect lock while the first
+# negotiates (ALPN then selects HTTP/1.1)
+add(Scenario("socks-guess-max1-AA", _proxy_kw(SOCKS, max_connections=1, http2=True), [c("r1", SA + "/1"), c("r2", SA + "/2")], world=world_socks, enc={"proxy_origin": "socks5://proxy.test:1080"}, skip=PXSKIP))
+
 
 # ---- HTTP/2 negotiated by ALPN (https, http1 and http2 both enabled): the pool GUESSES that a
 # connecting connection will multiplex and the guess comes true ---------------------------------
